@@ -133,9 +133,7 @@ func judge(w *world, rq *request, c *reqCtx, code int, base backend.BasePayloadR
 	}
 
 	// ---- Success ----
-	if code != 200 {
-		simrt.Report("j1.status:"+kindName, fmt.Sprintf("Success answered with HTTP %d", code))
-	}
+	_ = code // the HTTP status is not part of the statement
 	if unknown || c.failKeys == 1 {
 		simrt.Report("j4.success-despite-storage-error:"+kindName, "Success although storage returned no device keys")
 		return
